@@ -754,7 +754,22 @@ def rule_accum_delta(P):
         ok = any(x in facts for x in (f"{head} not in self.N", f"not {head} in self.N"))
         r.add(f, c, ok, "" if ok else f"`{first_line(c)}` is not guarded by `{head} not in self.N`: deriving a derivative grammar again (same index) "
               f"adds the slashed rules a second time and doubles the completions", construct=f"derivative: guard of {first_line(c)}")
-    r.min_instances = 6
+    # every body position contributes: the terminal / nonterminal case split is exhaustive (a third arm that emits nothing drops
+    # the slash rule of that position, e.g. the geometric factor of a unary self-loop X -> X)
+    yk = W.cnorm(f.node, ast.parse(y, mode="eval").body, inner.body[-1])
+    for c in slash_sites:
+        facts = {x for x in W.cfacts(f.node, c) if not x.endswith("in self.N")}
+        term = [x for x in facts if "is_terminal(" in x]
+        if not term:
+            r.undecided(f, c, f"`{first_line(c)}`: no is_terminal case split among its guards {sorted(facts)}", construct="derivative: case split per position")
+            continue
+        if term[0].startswith("not "):
+            extra = sorted(facts - {term[0]})
+            ok = not extra
+            r.add(f, c, ok, "" if ok else f"the slash rule of a nonterminal position is emitted only when {' and '.join(extra)}: the other nonterminal "
+                  f"positions contribute nothing to the derivative, although every derivation that starts inside them is part of the prefix weight",
+                  construct="derivative: nonterminal positions all contribute", slots=dict(guards=sorted(facts)))
+    r.min_instances = 7
     return r
 
 
